@@ -23,6 +23,8 @@ pub enum Check {
 	/// the message is read under `others[i]`
 	OtherSchema { i: usize },
 	SinkFault { plan: AcceptPlan, fault: SinkFault },
+	/// schedule only: a sink that accepts `plan` bytes per call, implementing write_vectored or not
+	SinkPlan { plan: AcceptPlan, vectored: bool },
 }
 
 #[derive(Clone, Debug, Serialize, Deserialize)]
@@ -163,6 +165,12 @@ fn enumerate_checks(msg_len: usize, others: usize, seed: u64, sink_calls_fixed1:
 	for i in 0..others {
 		v.push(Check::OtherSchema { i });
 	}
+	for vectored in [false, true] {
+		for k in [1usize, 2, 3, 5, 9, 10, 11, 64] {
+			v.push(Check::SinkPlan { plan: AcceptPlan::Fixed(k), vectored });
+		}
+		v.push(Check::SinkPlan { plan: AcceptPlan::All, vectored });
+	}
 	// sink: Interrupted and a hard error at every call index, on an accept-all sink and on Fixed(1)
 	for (plan, calls) in [(AcceptPlan::All, 3 + msg_len as u64), (AcceptPlan::Fixed(1), sink_calls_fixed1)] {
 		for at in 0..calls.min(64) {
@@ -226,7 +234,7 @@ impl Prop for C18 {
 		]
 	}
 	fn expected_probes(&self) -> Vec<&'static str> {
-		vec!["fault_header_byte", "fault_truncation", "fingerprint_endianness_cross_checked", "reader_refill_boundary_inside_header", "schema_pairs_checked", "sink_hard_or_zero_fired", "sink_interrupted_fired"]
+		vec!["fault_header_byte", "fault_truncation", "fingerprint_endianness_cross_checked", "reader_refill_boundary_inside_header", "schema_pairs_checked", "sink_hard_or_zero_fired", "sink_interrupted_fired", "sink_accept_schedule_checked"]
 	}
 	fn budget(&self, tier: Tier) -> (u64, u64) {
 		match tier {
@@ -503,6 +511,38 @@ impl Prop for C18 {
 					if r.res.is_ok() {
 						out.fail("C18:other-schema:reader-accepted", format!("plan {}: message written under {} decoded under {}", kind.label(), ast::to_json(&scn.schema), ast::to_json(t2)));
 						break;
+					}
+				}
+				Check::SinkPlan { plan, vectored } => {
+					let s = SimSink::new(plan.clone(), *vectored).with_step_budget(64 + 8 * msg.len() as u64);
+					let mut c = mk_config(&schema);
+					let ctx = PresCtx::new(&env, scn.pres, None);
+					let r = catch(|| serde_avro_fast::to_single_object(&Presented::new(&scn.val, &scn.schema, &ctx), s.clone(), &mut c).map(|_| ()));
+					out.evals += 1;
+					out.steps += s.calls();
+					digest.u64(s.digest());
+					out.count("sink_accept_schedule_checked", 1);
+					let mut sig = Fnv::new();
+					sig.str("sinkplan").str(&plan.label()).u64(*vectored as u64).u64(shape);
+					out.sig(sig);
+					match r {
+						Err(p) => {
+							out.fail(format!("C18:panic:sink-plan:{}", panic_site(&p)), p);
+							break;
+						}
+						Ok(Err(e)) => {
+							out.fail("C18:sink-schedule:call-failed", format!("{} vectored={vectored}: {e}", plan.label()));
+							break;
+						}
+						Ok(Ok(())) => {
+							if s.accepted() != msg {
+								out.fail(
+									"C18:sink-schedule-changes-output",
+									format!("{} vectored={vectored}: sink got {:02x?}, expected {:02x?}", plan.label(), &s.accepted()[..s.accepted_len().min(14)], &msg[..msg.len().min(14)]),
+								);
+								break;
+							}
+						}
 					}
 				}
 				Check::SinkFault { plan, fault } => {
